@@ -86,10 +86,7 @@ class Impl:
         try:
             text = ml.mediaText
             qs = [m for m in ml]
-            kinds = []
-            for i in range(len(ml)):
-                v = ml[i]
-                kinds.append('Q' if isinstance(v, self.MediaQuery) else 'C')
+            kinds = ['Q' if isinstance(i.value, self.MediaQuery) else 'C' for i in ml.seq]
             toks = [t for t in self.tokenize(text) if t[0] != 'S']
             return ('wf=%d length=%d len=%d text=%s types=%s q=%s items=%s toks=%s' % (
                 bool(ml.wellformed), ml.length, len(ml), enc(text),
